@@ -6,6 +6,8 @@
 // survive them).
 #include "runner.h"
 
+#include <algorithm>
+
 namespace {
 void linkedShape(const std::vector<uint8_t> &o, int64_t &polys, int64_t &loops,
                  int64_t &verts) {
@@ -51,12 +53,33 @@ static bool stepC16(const Case &c, const Result &ref, RunStats &st,
             if (p > 1) probes.insert("success.multi-polygon");
             if (l > p) probes.insert("success.with-holes");
             if (p == 0) probes.insert("success.empty");
+            if (p > 16) probes.insert("success.>16-polygons");
+            {
+                // most loops in one polygon (1 outer + holes)
+                int64_t cur = 0, best = 0;
+                for (size_t i = 0; i + 8 <= rep.res.out.size();) {
+                    uint64_t w;
+                    memcpy(&w, &rep.res.out[i], 8);
+                    if (w == 0x504F4C59ULL) {
+                        cur = 0;
+                        i += 8;
+                    } else if (w == 0x4C4F4F50ULL) {
+                        best = std::max(best, ++cur);
+                        i += 8;
+                    } else
+                        i += 16;
+                }
+                if (best >= 4) probes.insert("success.polygon-with>=3-holes");
+            }
             if (rep.heap.allocCount > 1000) probes.insert("success.>1000-allocations");
         } else {
             probes.insert(std::string("error-return:") + h3ErrorName(rep.res.rc));
             if (rep.heap.allocCount > 1)
                 probes.insert(std::string("error-return-after-allocations:") +
                               h3ErrorName(rep.res.rc));
+            if (c.op.tag.find("polar") != std::string::npos || c.op.tag.find("globe") != std::string::npos)
+                probes.insert(std::string("error-return:") + h3ErrorName(rep.res.rc) +
+                              ":footprint-wraps-pole-or-globe(no-outer-loop-exit)");
         }
     }
     std::vector<Verdict> vs = judgeC16(c, ref, rep);
